@@ -25,10 +25,56 @@ func New(r bufio.Reader) LexerReader {
 		runes = append(runes, '\n')
 	}
 
+	commentOutBlockComments(runes)
+
 	return LexerReader{
 		runes:    runes,
 		pos:      0,
 		ungetFlg: false,
+	}
+}
+
+// commentOutBlockComments turns every line of a `=begin` ... `=end` block
+// (both markers at the start of a line) into a `#` comment line: the lexer
+// knows line comments only, and the rows stay what they are.
+func commentOutBlockComments(runes []rune) {
+	startsWith := func(pos int, word string) bool {
+		for i, r := range word {
+			if pos+i >= len(runes) || runes[pos+i] != r {
+				return false
+			}
+		}
+
+		end := pos + len(word)
+
+		return end >= len(runes) || runes[end] == '\n' || runes[end] == ' ' || runes[end] == '\t' || runes[end] == '\r'
+	}
+
+	inBlock := false
+
+	for pos := 0; pos < len(runes); {
+		switch {
+		case !inBlock && startsWith(pos, "=begin"):
+			inBlock = true
+			runes[pos] = '#'
+
+		case inBlock && startsWith(pos, "=end"):
+			inBlock = false
+			runes[pos] = '#'
+
+		case inBlock:
+			// the first rune of the line becomes the comment sign (an empty
+			// line stays empty)
+			if runes[pos] != '\n' {
+				runes[pos] = '#'
+			}
+		}
+
+		for pos < len(runes) && runes[pos] != '\n' {
+			pos++
+		}
+
+		pos++
 	}
 }
 
